@@ -310,4 +310,7 @@ package hybridbuffer
 //@   requires parentLogger != nil
 //@   modifies everything
 //@   ensures[hash-of-the-raw-id] bufferID != "" ==> util.lasthashed === bufferID
+//@   before os.MkdirAll: assert[the-directory-created-for-an-id-is-the-one-joined-from-root-and-id] bufferID != "" ==> arg0 == lastjoinres && lastjoin0 == rootPath
+//@   ensures[the-directory-returned-is-the-one-created] result == lastmkdir
+//@   ensures[empty-id-uses-the-root] bufferID == "" ==> result == rootPath
 //@   ensures[id-file-holds-the-raw-id] lastwfdata == bufferID && lastwfname == pathjoin2(key(result), key(".id"))
